@@ -143,6 +143,8 @@ def run(property_id, tier, seed):
                                     + " edge sets over {root.zy, a.zy, b.zy, a.zyi}; a.zyi adds the signature edge; one "
                                     "fault-free history each (write files, graph of every file, analyze root)") if property_id == "C09" else "n/a",
         "inlining_equivalence_judgements": total("inline_judgements"),
+        "generative_copy_judgements": total("generative_judgements"),
+        "generative_copy_judgements_expecting_rejection": total("generative_rejections"),
         "operations_by_kind": merged("by_kind"),
         "fault_kinds_fired": merged("faults_fired"),
         "reach_probes": probes,
